@@ -15,7 +15,15 @@ import (
 	"golang.org/x/tools/go/ssa/ssautil"
 )
 
-const repoDir = "/repo"
+// repoDir is the tree under check. The registered commands always use /repo; VERIF_REPO exists so that seeded changes can be
+// tried in a scratch worktree without touching /repo (development only, never set by ./check).
+var repoDir = func() string {
+	if d := os.Getenv("VERIF_REPO"); d != "" {
+		return d
+	}
+	return "/repo"
+}()
+
 const modPath = "github.com/RoaringBitmap/roaring/v2"
 
 var harnessPkgs = map[string]string{ // harness dir name -> repo sub dir
@@ -117,18 +125,18 @@ func loadRepo() (*Loaded, error) {
 }
 
 type Instance struct {
-	Property string         `json:"property"`
-	Pkg      string         `json:"pkg"`
-	Func     string         `json:"func"`
-	Params   map[string]int `json:"params"`
-	Note     string         `json:"note,omitempty"`
-	MaxPaths int            `json:"-"`
-	MaxSteps int            `json:"-"`
-	Timeout  time.Duration  `json:"-"`
-	NumCPU   int            `json:"-"`
-	CheckAlloc bool         `json:"-"`
-	Tier     int            `json:"-"` // 0 quick+thorough, 1 thorough only
-	Solvers  string         `json:"-"` // portfolio override (comma separated)
+	Property   string         `json:"property"`
+	Pkg        string         `json:"pkg"`
+	Func       string         `json:"func"`
+	Params     map[string]int `json:"params"`
+	Note       string         `json:"note,omitempty"`
+	MaxPaths   int            `json:"-"`
+	MaxSteps   int            `json:"-"`
+	Timeout    time.Duration  `json:"-"`
+	NumCPU     int            `json:"-"`
+	CheckAlloc bool           `json:"-"`
+	Tier       int            `json:"-"` // 0 quick+thorough, 1 thorough only
+	Solvers    string         `json:"-"` // portfolio override (comma separated)
 }
 
 func (in *Instance) Name() string {
